@@ -5,13 +5,14 @@ n=$1; d=/verif/seeded/$n
 export GOFLAGS=-mod=mod GOPROXY=off GOSUMDB=off GOTOOLCHAIN=local
 wt=/tmp/vs/$n; rm -rf $wt; mkdir -p /tmp/vs
 git -C /repo worktree add -q --detach $wt HEAD || exit 2
-pkgdir=$(python3 -c "import json;print(json.load(open('$d/meta.json')).get('pkgdir','.'))")
+pkgdir=$(python3 -c "import json;m=json.load(open('$d/meta.json'));print(m.get('pkgdir') or m.get('demo_dir') or '.')")
+run=$(grep -o '^func Test[A-Za-z0-9_]*' $d/demo_test.go | sed 's/^func //' | paste -sd'|')
 [ -z "$pkgdir" ] && pkgdir=.
 cp $d/demo_test.go $wt/$pkgdir/zz_seed_demo_test.go
 cd $wt
-go test -vet=off -count=1 -run TestSeedDemo ./$pkgdir > /tmp/vs/$n.without 2>&1; w=$?
+go test -vet=off -count=1 -run "^($run)\$" ./$pkgdir > /tmp/vs/$n.without 2>&1; w=$?
 git apply $d/patch.diff || { echo "PATCH DOES NOT APPLY"; cd /; git -C /repo worktree remove --force $wt; exit 2; }
-go test -vet=off -count=1 -run TestSeedDemo ./$pkgdir > /tmp/vs/$n.with 2>&1; f=$?
+go test -vet=off -count=1 -run "^($run)\$" ./$pkgdir > /tmp/vs/$n.with 2>&1; f=$?
 rm $wt/$pkgdir/zz_seed_demo_test.go
 go build ./... > /tmp/vs/$n.build 2>&1; b=$?
 go test -vet=off -count=1 ./... > /tmp/vs/$n.suite 2>&1; s=$?
